@@ -142,7 +142,8 @@ impl HandlerResources {
             *client_id
         } else {
             // The client doesn't exist, add it to the maps
-            let client_id = client_id_map.next_available_key(&mut rand::rng());
+            // Not zero: `send_datagram_reply` takes client ID 0 for the stdio "client"
+            let client_id = client_id_map.next_available_nonzero_key(&mut rand::rng());
             client_id_map.insert(
                 client_id,
                 ClientIdMapEntry::new(addr, our_addr, socket, socks5),
